@@ -738,12 +738,32 @@ def run_mode(repo, name, cfg):
                            "ocb": ("Crypto.Cipher._mode_ocb", "_create_ocb_cipher", lambda: ref_ocb(key, nonce, header, msg, tlen)),
                            "chachapoly": ("Crypto.Cipher.ChaCha20_Poly1305", "new", lambda: ref_chacha_poly(key, nonce, header, msg))}[name]
     want_c, want_t = ref()
+    conv = {"bytearray": bytearray, "memoryview": lambda b: memoryview(bytearray(b))}.get(how)
+    if conv:
+        # the caller's buffers are bytearrays / memoryviews: same bytes out, and the buffers are not written to
+        how = "one"
+        held = []
+
+        def give(w, b):
+            v = conv(b)
+            held.append((w, w.it.new_obj(w.st, label="holder", attrs={"buf": v}), bytes(b)))
+            return v
+
+        def untouched():
+            for w, hd, before in held:
+                cur = w.st.heap.get(hd.ident, {}).get("buf")
+                if cur is None or bytes(cur) != before:
+                    return "a caller's %s argument was modified (%s -> %s)" % (cfg["how"], before.hex()[:16], bytes(cur).hex()[:16] if cur is not None else None)
+            return None
+    else:
+        give = lambda w, b: b
+        untouched = lambda: None
 
     def make():
         w = World(repo)
-        kw = {"key": key}
+        kw = {"key": give(w, key) if conv is bytearray else key}
         if nonce is not None:
-            kw["nonce"] = nonce
+            kw["nonce"] = give(w, nonce) if conv is bytearray else nonce
         if name not in ("siv", "chachapoly"):
             kw["mac_len"] = tlen
         if name == "ccm" and how != "one":
@@ -759,7 +779,7 @@ def run_mode(repo, name, cfg):
         for p in pieces(header, how):
             if name == "siv" and not p:
                 continue            # every update() of SIV is one component of the S2V vector
-            r = w.call(o, "update", p)
+            r = w.call(o, "update", give(w, p))
             if isinstance(r, tuple):
                 return "update: %r" % (r,)
     if how == "inplace" and name == "siv":
@@ -775,10 +795,13 @@ def run_mode(repo, name, cfg):
         if not isinstance(got_t, bytes):
             return "digest: %r" % (got_t,)
     elif name == "siv" or how == "one":
-        r = w.call(o, "encrypt_and_digest", msg)
+        r = w.call(o, "encrypt_and_digest", give(w, msg))
         if not (isinstance(r, tuple) and len(r) == 2 and all(isinstance(x, bytes) for x in r)):
             return "encrypt_and_digest: %r" % (r,)
         got_c, got_t = r
+        bad = untouched()
+        if bad:
+            return bad
     else:
         got_c = b""
         for p in pieces(msg, how) + ([None] if name == "ocb" else []):
@@ -809,7 +832,7 @@ def run_mode(repo, name, cfg):
             for p in pieces(h2, how):
                 if name == "siv" and not p:
                     continue
-                w.call(o, "update", p)
+                w.call(o, "update", give(w, p))
         if how == "inplace" and name == "siv":
             r, buf = w.call_inplace(o, "decrypt_and_verify", c2, t2)
             if r is None:
@@ -820,7 +843,10 @@ def run_mode(repo, name, cfg):
                 v = w.call(o, "verify", t2)
                 r = buf if v is None else v
         elif name == "siv" or how == "one":
-            r = w.call(o, "decrypt_and_verify", c2, t2)
+            r = w.call(o, "decrypt_and_verify", give(w, c2), give(w, t2))
+            bad = untouched()
+            if bad:
+                return bad
         else:
             r = b""
             for p in pieces(c2, how) + ([None] if name == "ocb" else []):
@@ -876,6 +902,11 @@ def configs(name, thorough=False):
             key = pat(32 if name in ("siv", "chachapoly") else 16, 0x70 + ml)
             nonce, tlen = {"eax": (pat(16, 1), 16), "siv": (pat(16, 1), 16), "ccm": (pat(11, 1), 16), "chachapoly": (pat(12, 1), 16)}.get(name, (pat(12, 1), 16))
             out.append(dict(key=key, nonce=nonce, header=pat(hl, 0x30), msg=pat(ml, 0x90), tlen=tlen, how="inplace"))
+    # (memoryview arguments are not modelled by A-PY beyond their length: not decided)
+    for ml, hl, how in ((17, 5, "bytearray"), (33, 16, "bytearray")) + (((0, 21, "bytearray"), (48, 0, "bytearray")) if thorough else ()):
+        key = pat(32 if name in ("siv", "chachapoly") else 16, 0x50 + ml)
+        nonce, tlen = {"eax": (pat(16, 1), 16), "siv": (pat(16, 1), 16), "ccm": (pat(11, 1), 16), "chachapoly": (pat(12, 1), 16), "ocb": (pat(15, 1), 16)}.get(name, (pat(12, 1), 16))
+        out.append(dict(key=key, nonce=nonce, header=pat(hl, 0x30), msg=pat(ml, 0x90), tlen=tlen, how=how))
     if name == "ccm":
         # SP 800-38C A.2.2: the length of the associated data is encoded on 2 bytes below 2^16 - 2^8, on 0xFFFE + 4 bytes from there
         for hl in (65279, 65280, 65535, 65536) if thorough else (65279, 65280, 65536):
